@@ -9,4 +9,4 @@ cp "$file" "$tmp/zz_overlay_test.go"
 dest="$repo/$pkg/zz_overlay_test.go"
 [ "$pkg" = "." ] && dest="$repo/zz_overlay_test.go"
 printf '{"Replace": {"%s": "%s"}}\n' "$dest" "$tmp/zz_overlay_test.go" > "$tmp/ov.json"
-cd "$repo" && ulimit -v 8000000 && go test -overlay "$tmp/ov.json" -vet=off -count=1 -timeout 120s -run "$run" "./$pkg"
+cd "$repo" && ulimit -v 8000000 && go test -overlay "$tmp/ov.json" -vet=off -count=1 -timeout ${OVL_TIMEOUT:-120s} -run "$run" "./$pkg"
